@@ -146,6 +146,47 @@ func drawKey(g *gen.G, label string) blsKey {
 		k := blsKey{sk: sk, pk: sk.PublicKey(), x: sum, how: "aggregated"}
 		k.pk = pkVariant(g, label+"PkVia", k)
 		return k
+	case 2: // a key share of the centralised threshold key generation: the public share is the object that function returns
+		n := g.Int(label+"TsN", 2, 5)
+		sks, pks, _, err := crypto.BLSThresholdKeyGen(n, g.Int(label+"TsT", 1, n-1), g.Bytes(label+"TsSeed", 32, 40))
+		if err != nil {
+			g.Fatalf("BLSThresholdKeyGen failed: %v", err)
+		}
+		i := g.Pick(label+"TsIndex", n)
+		pk := pks[i]
+		if g.Bool(label + "TsOwnPk") {
+			pk = sks[i].PublicKey()
+		}
+		g.Class("key:thresholdKeyShare")
+		return blsKey{sk: sks[i], pk: pk, x: new(big.Int).SetBytes(sks[i].Encode()), how: "thresholdKeyShare"}
+	case 3: // the keys a plain Feldman VSS participant leaves End() with
+		n := g.Int(label+"VssN", 2, 4)
+		th := g.Int(label+"VssT", 1, n-1)
+		dealer := g.Pick(label+"VssDealer", n)
+		me := (dealer + 1 + g.Int(label+"VssMe", 0, n-2)) % n
+		hon := vssDeal(g, n, th, dealer, g.Bytes(label+"VssSeed", 32, 32))
+		rec := &vssRecorder{shares: make([][]byte, n)}
+		inst, err := crypto.NewFeldmanVSS(n, th, me, rec, dealer)
+		if err != nil {
+			g.Fatalf("NewFeldmanVSS: %v", err)
+		}
+		_ = inst.Start(nil)
+		if err := inst.HandleBroadcastMsg(dealer, hon.vector); err != nil {
+			g.Fatalf("HandleBroadcastMsg(vector): %v", err)
+		}
+		if err := inst.HandlePrivateMsg(dealer, hon.shares[me]); err != nil {
+			g.Fatalf("HandlePrivateMsg(share): %v", err)
+		}
+		sk, _, pks, err := inst.End()
+		if err != nil {
+			g.Fatalf("honest plain Feldman VSS run failed: %v", err)
+		}
+		pk := pks[me]
+		if g.Bool(label + "VssOwnPk") {
+			pk = sk.PublicKey()
+		}
+		g.Class("key:dkgKeyShare")
+		return blsKey{sk: sk, pk: pk, x: new(big.Int).SetBytes(sk.Encode()), how: "dkgKeyShare"}
 	default:
 		x, how := drawScalar(g, label)
 		sk := decodeSK(g, x)
